@@ -27,9 +27,20 @@ def _n(rng, hi=255):
     return rng.choice([1, 5, 10, 30, 64, hi, rng.randint(1, 4000)])
 
 
-def meta_types(rng):
-    """metadata-side (generic) types per family"""
+def meta_types(rng, dialect=None):
+    """metadata-side (generic) types per family (+ the dialect's own string types with the keyword arguments
+    `type_arg_extract` looks at: MySQL CHARACTER SET / COLLATE)"""
     p = rng.randint(1, 38)
+    extra = []
+    if dialect == "mysql":
+        extra = [my.VARCHAR(_n(rng), charset="latin1"), my.VARCHAR(_n(rng), charset="utf8"), my.VARCHAR(_n(rng), collation="utf8_bin"),
+                 my.TEXT(charset="utf8", collation="utf8_general_ci")]
+    d = _meta_types(rng, p)
+    d["string"] = d["string"] + extra
+    return d
+
+
+def _meta_types(rng, p):
     return {
         "string": [T.String(_n(rng)), T.Text(), T.Unicode(_n(rng)), T.VARCHAR(_n(rng)), T.CHAR(_n(rng, 8)), T.String()],
         "integer": [T.Integer(), T.BigInteger(), T.SmallInteger()],
@@ -66,7 +77,8 @@ def insp_types(dialect, rng):
         }
     if dialect == "mysql":
         return {
-            "string": [my.VARCHAR(_n(rng)), my.TEXT(), my.LONGTEXT(), my.CHAR(_n(rng, 8)), my.TINYTEXT(), my.VARCHAR(_n(rng), charset="utf8")],
+            "string": [my.VARCHAR(_n(rng)), my.TEXT(), my.LONGTEXT(), my.CHAR(_n(rng, 8)), my.TINYTEXT(), my.VARCHAR(_n(rng), charset="utf8"),
+                       my.VARCHAR(_n(rng), collation="utf8_general_ci"), my.TEXT(charset="latin1")],
             "integer": [my.INTEGER(), my.BIGINT(), my.SMALLINT(), my.TINYINT(), my.INTEGER(display_width=11), my.MEDIUMINT()],
             "floatnum": [my.FLOAT(), my.DOUBLE(), my.DECIMAL(p, s), my.NUMERIC(p, s), my.DECIMAL()],
             "boolean": [my.BOOLEAN()],
@@ -117,7 +129,7 @@ def run_dialects(ctx, rng, rounds=1):
             continue
         syn = [sorted(g) for g in impl.type_synonyms]
         for _ in range(rounds):
-            it, mt = insp_types(dialect, rng), meta_types(rng)
+            it, mt = insp_types(dialect, rng), meta_types(rng, dialect)
             for fi, itypes in it.items():
                 for ity in itypes:
                     for fm, mtypes in mt.items():
